@@ -176,6 +176,10 @@ def step (st : St) (toks : List String) : Option (St × String × String) :=
         | .pushReference => s!"pushRef:{ref}" | .tag => s!"tag:{ref}" | .userPostCopy => "postCopy"
       let m := ",".intercalate ((rootFlow ⟨rp, pr⟩).map showEv)
       some (st, m, m)
+  | "cancelled" :: _ =>
+      -- a copy under cancellation either fails or did everything (which of the two depends
+      -- on the schedule); the harness reports anything else
+      some (st, "fails-or-complete", "fails-or-complete")
   | "remote" :: _ => some (st, "ok", "ok")      -- Copy with a registry client on one or both sides succeeds
   | "xend" :: rest => do       -- ExtendedCopyGraph with / without a fired fault: an error / success, never a hang
       let fired := (← kv rest "fired") == "1"
